@@ -306,6 +306,13 @@ def conclude(prop, tier, seed, specs, results, metas, crashes, nat, group_wall, 
         print("  undecided (not locked): %s  [%s] %s" % (r["name"], r["backend"], (r.get("detail") or "")[:160]))
     for ln in lines:
         print(ln)
+    if errors or crashes:
+        os.makedirs(OUT, exist_ok=True)
+        with open(os.path.join(OUT, "errors_%s.log" % prop), "a") as fh:
+            for r in errors:
+                fh.write("==== %s %s\n%s\n" % (time.strftime("%H:%M:%S"), r["name"], r.get("detail") or ""))
+            for c in crashes:
+                fh.write("==== CRASH %s\n" % c)
     for r in errors:
         print("ERROR %s: %s" % (r["name"], (r.get("detail") or "")[-1200:]))
     for c in crashes:
